@@ -48,6 +48,12 @@ def expectedFlash (calls : List (Bytes × Bytes × Nat)) : List Msg :=
 def expectedOld (inputs : List (Bytes × Bytes)) : List Msg :=
   inputs.map fun kv => ⟨kv.1, kv.2, 0, true⟩
 
+/-- `k` calls of `WithInput()` attach the input `k` times: every call appends one message per pair of
+    the bound map (what is attached is delivered, nothing is merged); `k = 0` attaches none even if
+    the request carried input. -/
+def expectedOldN (k : Nat) (inputs : List (Bytes × Bytes)) : List Msg :=
+  (List.replicate k (expectedOld inputs)).flatten
+
 /-! ### Rendering shared by harness, driver and spec -/
 
 def hx (s : Bytes) : String := if s.isEmpty then "_" else toHex s
